@@ -7,9 +7,12 @@ W = 16
 def jobs(tier):
     q = tier == "quick"
     return [
+        # clauses 1+2: packet structure (framing model) and multistream == stand-alone decoding through the mapping
         Job("c10_multistream", "flt-asan", "random", workers=W, cases=400 if q else 9000, maxtime=120 if q else 900),
+        # clause 3: every (family, channels) pair for both creation functions, then random plain layouts
         Job("c10_layouts", "flt-asan", "enumerate", workers=W, enum_stride=1, maxtime=120 if q else 600),
         Job("c10_layouts", "flt-asan", "random", workers=W, cases=1500 if q else 40000, maxtime=60 if q else 300),
+        # clause 4: matrix identity for the five orders (exhaustive over entries), projection round trips
         Job("c10_matrix", "flt-asan", "enumerate", workers=10, enum_stride=1, maxtime=60, refs=("ref-flt",)),
         Job("c10_matrix", "flt-asan", "random", workers=W, cases=12 if q else 250, maxtime=120 if q else 600, refs=("ref-flt",)),
     ]
@@ -17,10 +20,51 @@ def jobs(tier):
 
 PROP = dict(
     jobs=jobs,
-    rule="TBD",
-    required_labels={"any": {}},
-    exhaustive_parts={},
-    assumptions=[],
+    rule="c10_multistream: cases = (encoder kind: plain layout / surround family 1 / ambisonics family 2 / families 0, 255 / projection "
+         "family 3; rate, application, bitrate/CBR/FEC/DTX, signal; decoder layout = encoder layout or an own mapping with duplicates and "
+         "muted channels; output format float/int16/int24; history of frames with normal, PLC and FEC calls) and hand-assembled packets for "
+         "arbitrary decoder layouts up to 255 channels / 255 stream channels.  Non-trivial = layout with >= 2 streams and (a duplicate, a "
+         "255 entry or a coupled stream).  c10_layouts: (family, channels) pairs - all 2 x 256 x 258 enumerated - and random "
+         "(channels, streams, coupled, mapping) tuples, non-trivial = legal surround/projection layout with > 2 channels or a plain layout "
+         "with >= 2 stream channels.  c10_matrix: the ten built-in (order, non-diegetic) matrices, every entry of demix*gain*mix, and random "
+         "high-rate round trips.  distinct = hash of (layout, kind, format, rates, signal seed).",
+    required_labels={"any": {
+        "c10_multistream/structure-checked": 300, "c10_multistream/enc-kind:plain": 100, "c10_multistream/enc-kind:surround": 60,
+        "c10_multistream/enc-kind:ambisonics": 40, "c10_multistream/enc-kind:projection": 40, "c10_multistream/enc-kind:family255": 20,
+        "c10_multistream/decode-normal": 400, "c10_multistream/decode-plc": 100, "c10_multistream/decode-fec": 100,
+        "c10_multistream/decode-fec-with-lbrr": 3, "c10_multistream/layout-duplicate": 150, "c10_multistream/layout-muted": 100,
+        "c10_multistream/layout-coupled": 300, "c10_multistream/layout-huge": 15, "c10_multistream/format:int16": 100,
+        "c10_multistream/format:float": 200, "c10_multistream/format:int24": 100, "c10_multistream/rejected-damaged": 10,
+        "c10_multistream/last-stream-padded": 40, "c10_multistream/multi-frame-sub-packets": 100,
+        "c10_layouts/surround-legal": 500, "c10_layouts/surround-illegal": 60000, "c10_layouts/projection-legal": 10,
+        "c10_layouts/projection-illegal": 60000, "c10_layouts/decoder-layout-valid": 300, "c10_layouts/decoder-layout-invalid": 300,
+        "c10_layouts/encoder-layout-valid": 200, "c10_layouts/valid-for-decoder-only": 100,
+        "c10_matrix/identity-order-1": 1, "c10_matrix/identity-order-2+2": 1, "c10_matrix/identity-order-5+2": 1,
+        "c10_matrix/roundtrip-order-1": 5, "c10_matrix/roundtrip-order-2": 5}},
+    exhaustive_parts={"quick": ["c10_layouts: all 256 mapping families x channels 0..257 for opus_multistream_surround_encoder_create and "
+                                "opus_projection_ambisonics_encoder_create (132096 creations)",
+                                "c10_matrix: all entries of (demixing x gain x mixing) for the ten built-in matrices (orders 1-5, with/without the non-diegetic pair)"],
+                      "thorough": ["c10_layouts: all 256 mapping families x channels 0..257 for both creation functions",
+                                   "c10_matrix: all entries of (demixing x gain x mixing) for the ten built-in matrices"]},
+    assumptions=["The framing model (engine/rfc_framing.hpp) is a faithful transcription of RFC 6716 s3 / Appendix B (C06 checks it against the parser).",
+                 "Expected family-1 layouts are the conventional Ogg Opus stream assignment for the RFC 7845 s5.1.1.2 speaker orders (left/right pairs "
+                 "coupled and first, centre / rear centre / LFE mono, LFE last), written as a literal table plus structural checks on the speaker pairs; "
+                 "family 2 per RFC 8486 s3.1 (one mono stream per ACN channel, the non-diegetic pair as the single coupled stream, coupled first); "
+                 "family 3 only through the projection API (streams+coupled == channels, as many pairs as possible).",
+                 "Error code for an undefined (family, channels): OPUS_BAD_ARG or OPUS_UNIMPLEMENTED for the surround call (BAD_ARG when channels is "
+                 "outside 1..255), any defined opus error code for the projection call (it reports OPUS_ALLOC_FAIL today; the documentation names none).",
+                 "FEC calls on the multistream decoder are compared only with frame_size >= the packet duration: with less the multistream decoder "
+                 "returns OPUS_BUFFER_TOO_SMALL where opus_decode conceals (caller-visible difference, not covered by the property text).",
+                 "Round trip: per-channel SNR >= 18 dB (frozen codec's weakest channel: 24.0 dB over 2169 cases, 6 dB margin, calib/C10.json) and within "
+                 "6 dB of the frozen codec on the same input, at OPUS_BITRATE_MAX, 48 kHz; matrix identity tolerance 1e-3 (probe: 2.1e-4)."],
 )
 
-TEXT = dict(technique="TBD", level="TBD", note="TBD")
+TEXT = dict(
+    technique="differential and model-based property testing: independent RFC 6716 framing model splits every encoder output; multistream decoder "
+              "vs stand-alone decoders on re-serialised sub-packets; exhaustive enumeration of (family, channels) and of the built-in matrices; "
+              "calibrated round trip against the frozen codec",
+    level="Generated layouts, signals and loss histories: every packet from every multistream-type encoder is split by the model and decoded both "
+          "ways, bit-exact per channel (float, int16, int24; PLC and FEC). All 2x256x258 (family, channels) creations and all matrix entries of the "
+          "five orders are enumerated in both tiers; plain layouts, audio cases and round trips are sampled (exploration).",
+    note="Trusted: engine/rfc_framing.hpp, stand-alone opus_decode* (C03's subject), the frozen reference codec for the round-trip bound, ASan/UBSan.",
+)
